@@ -567,6 +567,10 @@ def corpus() -> List[dict]:
         {"kind": "bar", "arg": dict(p=1, t=2, o=10, h=10, l=10, c=10, v=4)},
         {"kind": "cancel_order", "arg": 1},
         {"kind": "bar", "arg": dict(p=1, t=3, o=10, h=10, l=10, c=10, v=4)}]})
+    # D15: rollback of the first auto-borrow loan vetoed by the margin rule (found by a seed sweep)
+    d15 = os.path.join(os.path.dirname(os.path.abspath(__file__)), "corpus_d15.json")
+    if os.path.exists(d15):
+        out.append(json.load(open(d15)))
     return out
 
 
